@@ -1,12 +1,24 @@
 import AFV.Driver.Proto
 import AFV.Driver.NestJson
 namespace AFV.Driver.C19
-open Lean AFV.Proto AFV.Nest AFV.Driver.NestJson
+open Lean AFV.Proto AFV.Driver.NestJson
 
-/-- ops: {"op":"eval", …} as C05 (the harness scales the inputs itself and asks for both evaluations). -/
+/-- `|b − a·k| ≤ tol · max(|b|, |a·k|)` with k = kn/kd > 0, tol = tn/td, over exact integers. -/
+def eqScaled (a b kn kd tn td : Int) : Bool :=
+  let lhs := (b * kd - a * kn).natAbs          -- |b − a k| · kd
+  let m := max (b * kd).natAbs (a * kn).natAbs -- max(|b|, |a k|) · kd
+  lhs * td.natAbs ≤ tn.natAbs * m
+
+/-- ops: `eqScaled` (mapper stream) and `eval` (model stream: as C05, the harness scales the inputs itself). -/
 def handle (req : Json) : Json :=
   match (field? req "op").bind getStr? with
   | some "eval" => evalReply req
+  | some "eqScaled" =>
+    match (field? req "a").bind getInt?, (field? req "b").bind getInt?, (field? req "k_num").bind getInt?,
+          (field? req "k_den").bind getInt?, (field? req "tol_num").bind getInt?, (field? req "tol_den").bind getInt? with
+    | some a, some b, some kn, some kd, some tn, some td =>
+      if kd > 0 && kn > 0 && td > 0 then Json.bool (eqScaled a b kn kd tn td) else err "malformed"
+    | _, _, _, _, _, _ => err "malformed"
   | _ => err "bad-op"
 
 end AFV.Driver.C19
